@@ -35,6 +35,12 @@ func vRun(op string, in M) M {
 	case "b1t8.Decode":
 		src := trinary.Trits(vInt8s(in["trits"]))
 		dst := make([]byte, DecodedLen(len(src))+1)
+		// the destination is whatever the caller used it for before: zeros, ones, patterns (a decoder writes bytes, it
+		// does not merge them into what is there)
+		vDirtyNo++
+		for i := range dst {
+			dst[i] = []byte{0x00, 0xff, 0xa5, 0x5a, 0x0f}[vDirtyNo%5]
+		}
 		var n int
 		var err error
 		p := vCatch(func() { n, err = Decode(dst, src) })
@@ -45,6 +51,8 @@ func vRun(op string, in M) M {
 	}
 	panic("unknown op " + op)
 }
+
+var vDirtyNo int
 
 func TestVerifDriver(t *testing.T) {
 	vMain(vRun, func(do func(string, M)) {
